@@ -1,4 +1,4 @@
-(** Model of src/epd2in9/mod.rs — STUB, not yet transcribed. *)
+(** Model of src/epd2in9/mod.rs (type A, IL3820-style). *)
 From Coq Require Import List NArith Bool.
 From EPD Require Import Iface Ops Drv.Luts.
 Import ListNotations.
@@ -8,11 +8,111 @@ Open Scope m_scope.
 Module Epd2in9.
 Definition WIDTH : N := 128.
 Definition HEIGHT : N := 296.
+Definition IS_BUSY_LOW := false.
 
-Definition init : M unit := ret tt.
+Section F.
+Variable ft : feat.
 
-Definition exec (k : N) (o : op) : option (M rval) := None.
+(* src/type_a/constants.rs: LUT_FULL_UPDATE depends on type_a_alternative_faster_lut *)
+Definition LUT_FULL_UPDATE := if f_alt ft then type_a_LUT_FULL_UPDATE_alt else type_a_LUT_FULL_UPDATE.
+Definition LUT_PARTIAL_UPDATE := type_a_LUT_PARTIAL_UPDATE.
 
-Definition drv (ft : feat) : driver :=
-  mkDriver WIDTH HEIGHT true d0 init exec.
+Definition wait_until_idle : M unit := wait_idle IS_BUSY_LOW.
+
+Definition set_lut_helper (buffer : list N) : M unit :=
+  wait_until_idle ;;
+  assert (N.of_nat (length buffer) =? 30) ;;
+  cmd_with_data 0x32 buffer.
+
+Definition set_lut (r : option N) : M unit :=
+  (match r with Some v => modify (set_refresh v) | None => ret tt end) ;;
+  s <- get ;;
+  if refresh s =? 0 then set_lut_helper LUT_FULL_UPDATE else set_lut_helper LUT_PARTIAL_UPDATE.
+
+Definition init : M unit :=
+  reset 10000 10000 ;;
+  wait_until_idle ;;
+  cmd_with_data 0x01 [0x27; 0x01; 0x00] ;;
+  cmd_with_data 0x0C [0xD7; 0xD6; 0x9D] ;;
+  cmd_with_data 0x2C [0xA8] ;;
+  cmd_with_data 0x3A [0x1A] ;;
+  cmd_with_data 0x3B [0x08] ;;
+  cmd_with_data 0x11 [0x03] ;;
+  set_lut None.
+
+Definition set_ram_area (sx sy ex ey : N) : M unit :=
+  assert (sx <? ex) ;;
+  assert (sy <? ey) ;;
+  cmd_with_data 0x44 [u8 (shr sx 3); u8 (shr ex 3)] ;;
+  cmd_with_data 0x45 [u8 sy; u8 (shr sy 8); u8 ey; u8 (shr ey 8)].
+
+Definition set_ram_counter (x y : N) : M unit :=
+  wait_until_idle ;;
+  cmd_with_data 0x4E [u8 (shr x 3)] ;;
+  cmd_with_data 0x4F [u8 y; u8 (shr y 8)].
+
+Definition use_full_frame : M unit :=
+  set_ram_area 0 0 (WIDTH - 1) (HEIGHT - 1) ;;
+  set_ram_counter 0 0.
+
+Definition sleep : M unit :=
+  wait_until_idle ;;
+  cmd_with_data 0x10 [0x00].
+
+Definition wake_up : M unit :=
+  wait_until_idle ;;
+  init.
+
+Definition update_frame (k len : N) : M unit :=
+  wait_until_idle ;;
+  use_full_frame ;;
+  cmd_with_data_e 0x24 (DArg k 0 0 len).
+
+Definition update_partial_frame (k len x y w h : N) : M unit :=
+  wait_until_idle ;;
+  ex <- add32 x w ;;
+  ey <- add32 y h ;;
+  set_ram_area x y ex ey ;;
+  set_ram_counter x y ;;
+  cmd_with_data_e 0x24 (DArg k 0 0 len).
+
+Definition display_frame : M unit :=
+  wait_until_idle ;;
+  cmd_with_data 0x22 [0xC4] ;;
+  cmd 0x20 ;;
+  cmd 0xFF.
+
+Definition update_and_display_frame (k len : N) : M unit :=
+  update_frame k len ;;
+  display_frame.
+
+Definition clear_frame : M unit :=
+  wait_until_idle ;;
+  use_full_frame ;;
+  s <- get ;;
+  let color := if bg s =? cWhite then 0xff else 0x00 in
+  cmd 0x24 ;;
+  data_x_times color (WIDTH / 8 * HEIGHT).
+
+Definition exec (k : N) (o : op) : option (M rval) :=
+  match o with
+  | OSleep => unit_ sleep
+  | OWakeUp => unit_ wake_up
+  | OSetBg c => unit_ (modify (set_bg c))
+  | OGetBg => Some (s <- get ;; ret (RColor (bg s)))
+  | OWidth => Some (ret (RNum WIDTH))
+  | OHeight => Some (ret (RNum HEIGHT))
+  | OUpdateFrame len => unit_ (update_frame k len)
+  | OUpdatePartial len x y w h => unit_ (update_partial_frame k len x y w h)
+  | ODisplay => unit_ display_frame
+  | OUpdateAndDisplay len => unit_ (update_and_display_frame k len)
+  | OClear => unit_ clear_frame
+  | OSetLut r => unit_ (set_lut r)
+  | OWaitIdle => unit_ wait_until_idle
+  | _ => None
+  end.
+
+Definition drv : driver :=
+  mkDriver WIDTH HEIGHT true (mkD cWhite 0 false false 0 None) init exec.
+End F.
 End Epd2in9.
